@@ -265,6 +265,14 @@ def scen_S(case, biases="full", with_fd=True, with_other=True):
             continue
         s += corpus.fext_line(case[name]) + "\nstep\n"
         tags.append((name, T_STEPS - 1))
+    # the target temperature changes during the run (scripts and engines may do that: annealing, tempering): the Jacobian
+    # term follows the temperature of the step; geometry and (zero) forces as at the first step
+    s += corpus.pos_line(case["X"][0]) + "\n" + zero + "\n"
+    s += "temp 0.0\nstep\n"
+    tags.append(("JT0", 0))
+    s += "temp %s\nstep\n" % fnum(2.0 * case["temp"])
+    tags.append(("JT2", 0))
+    s += "temp %s\n" % fnum(case["temp"])
     if with_fd and case["fd"]:
         X0 = case["X"][0]
         s += corpus.pos_line(X0) + "\n"
@@ -460,6 +468,17 @@ def check_case(c, case, runs):
             break
         c.bump("unbiased_bitwise_checks")
 
+    # -- the Jacobian term is weighted by the temperature of the step ------------------------------
+    j0, jt0, jt2 = ftS[("J", 0)], ftS[("JT0", 0)], ftS[("JT2", 0)]
+    if jt0 != 0.0:
+        viol(c, "jacobian_after_temperature_change:to_zero:" + vk, "geometry 0, zero atomic forces: total force %.17g after the target temperature "
+             "was set to 0 (it was %.17g at %s K)" % (jt0, j0, fnum(case["temp"])), files, payload)
+        return False
+    if abs(jt2 - 2.0 * j0) > 1e-12 * max(abs(j0), 1e-300) + 1e-300:
+        viol(c, "jacobian_after_temperature_change:doubled:" + vk, "geometry 0, zero atomic forces: total force %.17g after the target temperature "
+             "was doubled, twice the value at %s K is %.17g" % (jt2, fnum(case["temp"]), 2.0 * j0), files, payload)
+        return False
+    c.bump("jacobian_temperature_change_checks")
     # -- Jacobian term in the same-step run ------------------------------------------------------
     for t in range(T_STEPS):
         J = ftS[("J", t)]
